@@ -217,9 +217,45 @@ def one_program(ctx, prog, script, rng, settings_list, dynamic=True):
         return 'accepted'
     if not check_symbols(ctx, prog, ex, symbols, case):
         return 'symbols'
+    if not check_result_independence(ctx, script, symbols, case):
+        return 'symbols'
     for st in settings_list:
         check_build(ctx, prog, ex, symbols, st, case, rng, dynamic)
     return 'ok'
+
+
+def check_result_independence(ctx, script, symbols, case):
+    """What the parser returns belongs to the caller: extending, clearing or re-ordering a returned list (symbol lists are
+    routinely concatenated with `+=`) must not change what the same text parses to afterwards."""
+    import fsic
+    from fsic import parser as P
+    try:
+        for stmt in P.split_equations(script):
+            try:
+                got = P.parse_equation(stmt)
+                terms = P.parse_terms(stmt)
+            except parser_errors():
+                continue        # verbatim blocks are not for parse_equation
+            if isinstance(got, list):
+                got += [P.Symbol(name='POISON', type=P.Type.ENDOGENOUS, lags=-9, leads=9, equation='POISON[t] = 1', code='self._POISON[t] = 1')]
+                got.reverse()
+            if isinstance(terms, list):
+                terms.clear()
+        again = fsic.parse_model(script)
+        if isinstance(again, list):
+            again.clear()
+        third = fsic.parse_model(script)
+    except Exception as e:  # noqa: BLE001
+        ctx.violation('result-not-independent', f'parsing the same text again after editing earlier results raised {type(e).__name__}: {str(e)[:200]}', case)
+        return False
+    ctx.count('reparse_after_result_edits')
+    if list(third) != list(symbols):
+        extra = [s.name for s in third if s not in symbols]
+        missing = [s.name for s in symbols if s not in third]
+        ctx.violation('result-not-independent', f'after the caller edited lists returned by parse_equation / parse_terms / parse_model, the same script parses differently: '
+                                                f'extra {extra[:5]}, missing {missing[:5]}', case)
+        return False
+    return True
 
 
 def merge_catalogue():
